@@ -40,6 +40,39 @@ def in_range(v):
         return False
 
 
+def amount_limit_of_transactions(ctx, res):
+    """the maximum supply as the limit the validator places on what an ordinary transaction hands out: every output in
+    (0, MAX_SASHIMI] and their total in (0, MAX_SASHIMI], wherever in the list the large output stands"""
+    from skepticoin import consensus
+    from skepticoin.datatypes import Transaction, Input, Output, OutputReference
+    from skepticoin.signing import SECP256k1PublicKey, SECP256k1Signature
+    rng = ctx.rng
+    M = 2_099_999_986_350_000
+    lists = [[M], [M, 1], [1, M], [M - 1, 1], [1, M - 1], [M // 2 + 1, M // 2 + 1], [M // 2, M // 2], [M + 1], [M, M],
+             [M // 3 + 1] * 3, [M // 3] * 3, [1, 1, M - 2], [1, 1, M - 1], [5, 0], [0], [M - 5, 2, 3], [M - 5, 3, 3], [2 ** 63, 1]]
+    for _ in range(40):
+        n = rng.randrange(1, 5)
+        lists.append([rng.choice([1, 7, M // n, M // n + 1, M - n, M]) for _ in range(n)])
+    for values in lists:
+        pk = SECP256k1PublicKey(bytes(rng.getrandbits(8) for _ in range(64)))
+        t = Transaction([Input(OutputReference(bytes(rng.getrandbits(8) for _ in range(32)), 0),
+                               SECP256k1Signature(bytes(rng.getrandbits(8) for _ in range(64))))],
+                        [Output(v, pk) for v in values])
+        try:
+            consensus.validate_non_coinbase_transaction_by_itself(t)
+            ok = True
+        except Exception:
+            ok = False
+        want = all(0 < v <= M for v in values) and 0 < sum(values) <= M
+        res.case(("txlimit", tuple(values)))
+        res.count("transaction_amount_limit:" + ("within" if want else "beyond"))
+        if ok != want:
+            res.violations.append({"kind": "a transaction handing out %s (total %d) is %s by the validator; the limit on any amount "
+                                           "and on the total is 2,099,999,986,350,000" % (values, sum(values),
+                                                                                           "accepted" if ok else "refused"),
+                                   "outputs": values})
+
+
 def validator_probes(ctx, res, ops, impl):
     """appends driver operations / implementation outputs and records violations"""
     rng = ctx.rng
@@ -176,6 +209,7 @@ def run(ctx):
                                    "lower_height": hs[k - 1], "there": vals[k - 1]})
     res.count("heights_vs_model", len(hs))
     validator_probes(ctx, res, ops, impl)
+    amount_limit_of_transactions(ctx, res)
     model = ctx.driver.ask(ops)
     kit.compare(res, ops, impl, model)
     res.sample({"op": "subsidy 1050000", "impl": str(get_block_subsidy(1050000))})
